@@ -134,8 +134,13 @@ class VClock(_dt.datetime):
 
     @classmethod
     def now(cls, tz=None):
-        t = cls.base + _dt.timedelta(seconds=(cls.loop.time() if cls.loop else 0.0) + cls.offset)
-        return t.replace(tzinfo=tz) if tz is not None else t
+        el = (cls.loop.time() if cls.loop else 0.0) + cls.offset
+        t = cls.base + _dt.timedelta(seconds=el)
+        if tz is not None:
+            return t.replace(tzinfo=tz)
+        # naive "local" time of a zone with daylight saving: the wall clock is set back / forward by an hour every 12 h of real time, so that
+        # any interval of 12 h contains a night in which the clocks change (lifetimes must be measured on an absolute time scale)
+        return t + _dt.timedelta(seconds=3600 if int(el // 43200) % 2 == 0 else 0)
 
 
 class FakeTransport(asyncio.Transport):
